@@ -26,7 +26,7 @@ def nargs(name, d, opt=None):
         return 1
     if name in ("ref_startpos", "posref_startpos"):
         return 2
-    if name == "append":
+    if name in ("append", "insert_dep", "insertOrLookup_dep"):
         return 2 if d == 1 else 3
     if name == "extend":
         n = opt["n"]
@@ -51,10 +51,14 @@ def nargs(name, d, opt=None):
         return 1
     if name == "upd_payloads":
         return 1
+    if name == "upd_coords_table":
+        return opt["n"]
     if name == "clear":
         return 0
     if name == "populate2":
         return 5
+    if name == "populate_ref":
+        return d + 2
     raise KeyError(name)
 
 
@@ -69,9 +73,18 @@ def arg_pre(name, d, opt, ns):
         return chain_pre(ns[:n]) + ["0 <= %s <= 2" % s for s in ns[2 * n:3 * n]]
     if name == "populate2":
         return ["0 <= %s <= 2" % ns[3]]
+    if name == "populate_ref":
+        return ["0 <= %s <= 2" % ns[-2]]
     if name == "range_shape_ref":
         return ["0 <= %s - %s <= %d" % (ns[1], ns[0], opt.get("span", 3))]
+    if name == "upd_coords_table":
+        # an arbitrary *injective* coordinate map on the stored coordinates ("unique is not checked": the caller owes injectivity)
+        return ["%s != %s" % (ns[i], ns[j]) for i in range(len(ns)) for j in range(i + 1, len(ns))]
     return []
+
+
+class PairingError(Exception):
+    pass
 
 
 def apply(name, d, f, t, a, opt=None):
@@ -85,6 +98,8 @@ def apply(name, d, f, t, a, opt=None):
         return "error"
     except (IndexError, TypeError, ValueError, KeyError, AttributeError):
         return "error"
+    except PairingError as e:
+        return "pairing: %s" % e
     return "ok"
 
 
@@ -119,8 +134,15 @@ def _apply(name, d, f, t, a, opt):
         else:
             g = Fiber(cs, [_leafval(d, a[n + i], a[2 * n + i]) for i in range(n)])
         f.extend(g)
+    elif name == "insert_dep":
+        f.insert(a[0], _leafval(d, a[1], a[2] if d > 1 else None))              # deprecated spelling, still public
+    elif name == "insertOrLookup_dep":
+        r = f.insertOrLookup(a[0], _leafval(d, a[1], a[2] if d > 1 else None))
+        if not any(p is r for p in f.payloads):
+            raise PairingError("insertOrLookup returned a payload that is not stored in the fiber")
     elif name == "setitem_cp":
-        f[opt["pos"]] = CoordPayload(a[0], _leafval(d, a[1], a[2] if d > 1 else None))
+        tgt = t if (opt.get("via") == "tensor" and t is not None) else f      # Tensor.__setitem__ delegates to the root fiber
+        tgt[opt["pos"]] = CoordPayload(a[0], _leafval(d, a[1], a[2] if d > 1 else None))
     elif name == "setitem_val":
         f[opt["pos"]] = _leafval(d, a[0], a[1] if d > 1 else None)
     elif name == "setitem_coord":
@@ -166,10 +188,37 @@ def _apply(name, d, f, t, a, opt):
     elif name == "upd_payloads":
         w = a[0]
         f.updatePayloads(lambda i, c, p: p + w, depth=opt.get("depth", 0))
+    elif name == "upd_coords_table":
+        # the new coordinate of the k-th stored element is the symbolic a[k]: any injective map, monotone or not
+        old = list(f.coords)
+        olp = list(f.payloads)
+        new = list(a)
+        def cb(i, c, p):
+            for k in range(len(old)):
+                if c == old[k]:
+                    return new[k]
+            return c
+        f.updateCoords(cb)
+        if len(f.coords) != len(old):
+            raise PairingError("updateCoords changed the number of elements")
+        for k in range(len(old)):
+            hit = [j for j in range(len(f.coords)) if f.coords[j] == new[k]]
+            if len(hit) != 1 or f.payloads[hit[0]] is not olp[k]:
+                raise PairingError("after updateCoords the payload of the element moved to %r is not the one it had" % (new[k],))
     elif name == "clear":
         f.clear()
     elif name == "populate2":
         _apply_populate2(f, a)
+    elif name == "populate_ref":
+        # top-level populate whose body only reaches *below* the offered sub-fiber: it obtains a reference at a deeper point and
+        # (selector) leaves it unwritten, or writes w (w may be the default)
+        g = Fiber([a[0]], [1])
+        sel, w = a[d], a[d + 1]
+        for m, (zk, av) in f << g:
+            if sel >= 1:
+                r = zk.getPayloadRef(*a[1:d])
+                if sel == 2:
+                    r <<= w
     else:
         raise KeyError(name)
 
